@@ -1,3 +1,223 @@
 package main
 
-func selftestMain(args []string) int { return 0 }
+import (
+	"encoding/json"
+	"flag"
+	"fmt"
+	"os"
+	"os/exec"
+	"path/filepath"
+	"runtime/debug"
+	"sort"
+	"strings"
+	"sync"
+)
+
+// A Mutant is a single edit of a real /repo file, applied in memory through
+// packages.Config.Overlay (the repository is never touched).
+type Mutant struct {
+	Name   string `json:"name"`
+	Prop   string `json:"prop"`
+	File   string `json:"file"` // relative to repo
+	Old    string `json:"old"`
+	New    string `json:"new"`
+	Expect string `json:"expect"` // "fire" or "silent"
+	Rule   string `json:"rule,omitempty"`
+	// Construct must be a substring of the construct of a violated obligation of Rule.
+	Construct string `json:"construct,omitempty"`
+	Why       string `json:"why,omitempty"`
+	// Edits allows multi-file mutants (in addition to File/Old/New).
+	Edits []struct {
+		File string `json:"file"`
+		Old  string `json:"old"`
+		New  string `json:"new"`
+	} `json:"edits,omitempty"`
+}
+
+func loadMutants(dir string) []Mutant {
+	files, _ := filepath.Glob(filepath.Join(dir, "*.json"))
+	sort.Strings(files)
+	var all []Mutant
+	for _, f := range files {
+		b, err := os.ReadFile(f)
+		if err != nil {
+			brokenf("%v", err)
+		}
+		var ms []Mutant
+		if err := json.Unmarshal(b, &ms); err != nil {
+			brokenf("%s: %v", f, err)
+		}
+		all = append(all, ms...)
+	}
+	return all
+}
+
+// selftestMain: pkverify selftest [-prop C13] [-j 4] [-name substr]
+// Not part of any registered check; it tests the checker itself.
+func selftestMain(args []string) int {
+	fs := flag.NewFlagSet("selftest", flag.ExitOnError)
+	prop := fs.String("prop", "", "only mutants of this property (comma separated)")
+	name := fs.String("name", "", "only mutants whose name contains this")
+	jobs := fs.Int("j", 4, "parallel worker processes")
+	shard := fs.String("shard", "", "internal: i/n")
+	repo := fs.String("repo", "/repo", "repository")
+	verif := fs.String("verif", "/verif", "verif dir")
+	fs.Parse(args)
+	all := loadMutants(filepath.Join(*verif, "selftest"))
+	var sel []Mutant
+	for _, m := range all {
+		if *prop != "" && !strings.Contains(","+*prop+",", ","+m.Prop+",") {
+			continue
+		}
+		if *name != "" && !strings.Contains(m.Name, *name) {
+			continue
+		}
+		sel = append(sel, m)
+	}
+	if *shard == "" {
+		if len(sel) == 0 {
+			fmt.Println("selftest: no mutants selected")
+			return 0
+		}
+		n := *jobs
+		if n > len(sel) {
+			n = len(sel)
+		}
+		var wg sync.WaitGroup
+		outs := make([]string, n)
+		codes := make([]int, n)
+		for i := 0; i < n; i++ {
+			wg.Add(1)
+			go func(i int) {
+				defer wg.Done()
+				a := append([]string{"selftest", "-shard", fmt.Sprintf("%d/%d", i, n), "-repo", *repo, "-verif", *verif}, passthrough(*prop, *name)...)
+				cmd := exec.Command(os.Args[0], a...)
+				b, err := cmd.CombinedOutput()
+				outs[i] = string(b)
+				if err != nil {
+					codes[i] = 1
+				}
+			}(i)
+		}
+		wg.Wait()
+		pass, fail := 0, 0
+		for _, o := range outs {
+			fmt.Print(o)
+			pass += strings.Count(o, "\nPASS ") + boolInt(strings.HasPrefix(o, "PASS "))
+			fail += strings.Count(o, "\nFAIL ") + boolInt(strings.HasPrefix(o, "FAIL "))
+		}
+		fmt.Printf("selftest: %d mutants, %d pass, %d fail\n", len(sel), pass, fail)
+		if fail > 0 || pass != len(sel) {
+			return 1
+		}
+		return 0
+	}
+	var si, sn int
+	fmt.Sscanf(*shard, "%d/%d", &si, &sn)
+	code := 0
+	for i, m := range sel {
+		if i%sn != si {
+			continue
+		}
+		if !runMutant(m, *repo, *verif) {
+			code = 1
+		}
+		debug.FreeOSMemory()
+	}
+	return code
+}
+
+func boolInt(b bool) int {
+	if b {
+		return 1
+	}
+	return 0
+}
+
+func passthrough(prop, name string) []string {
+	var a []string
+	if prop != "" {
+		a = append(a, "-prop", prop)
+	}
+	if name != "" {
+		a = append(a, "-name", name)
+	}
+	return a
+}
+
+func runMutant(m Mutant, repo, verif string) (ok bool) {
+	defer func() {
+		if e := recover(); e != nil {
+			fmt.Printf("FAIL %s [%s]: checker broke: %v\n", m.Name, m.Prop, e)
+			ok = false
+		}
+	}()
+	overlay := map[string][]byte{}
+	apply := func(file, old, new string) {
+		path := filepath.Join(repo, file)
+		src, have := overlay[path]
+		if !have {
+			b, err := os.ReadFile(path)
+			if err != nil {
+				panic(err)
+			}
+			src = b
+		}
+		if strings.Count(string(src), old) != 1 {
+			panic(fmt.Sprintf("mutant %s: old text occurs %d times in %s (want exactly 1)", m.Name, strings.Count(string(src), old), file))
+		}
+		overlay[path] = []byte(strings.Replace(string(src), old, new, 1))
+	}
+	if m.File != "" {
+		apply(m.File, m.Old, m.New)
+	}
+	for _, e := range m.Edits {
+		apply(e.File, e.Old, e.New)
+	}
+	ps := props[m.Prop]
+	if ps == nil {
+		panic("unknown property " + m.Prop)
+	}
+	p := LoadProgram(repo, "quick", nil, overlay)
+	r := NewReporter(m.Prop, p)
+	ps.Run(p, r)
+	known := map[string]bool{}
+	for _, f := range loadFindings(filepath.Join(verif, "known_findings.json")) {
+		if f.Property == m.Prop && f.Status == "known" {
+			known[f.Rule+" "+f.Construct] = true
+		}
+	}
+	var bad []Obligation
+	for _, o := range r.Obls {
+		if o.Status != Discharged && !known[o.Key()] {
+			bad = append(bad, o)
+		}
+	}
+	for k, fl := range r.floors {
+		if r.counts[k] < fl {
+			bad = append(bad, Obligation{Rule: "floor", Construct: k, Status: Violated})
+		}
+	}
+	switch m.Expect {
+	case "silent":
+		if len(bad) == 0 {
+			fmt.Printf("PASS %s [%s]: silent as expected\n", m.Name, m.Prop)
+			return true
+		}
+		fmt.Printf("FAIL %s [%s]: expected silence, got %d violation(s), first: %s %s: %s\n", m.Name, m.Prop, len(bad), bad[0].Rule, bad[0].Construct, bad[0].Detail)
+		return false
+	default:
+		for _, o := range bad {
+			if (m.Rule == "" || o.Rule == m.Rule) && strings.Contains(o.Construct, m.Construct) {
+				fmt.Printf("PASS %s [%s]: %s fired on %s\n", m.Name, m.Prop, o.Rule, o.Construct)
+				return true
+			}
+		}
+		first := "none"
+		if len(bad) > 0 {
+			first = bad[0].Rule + " " + bad[0].Construct
+		}
+		fmt.Printf("FAIL %s [%s]: expected %s to fire on *%s*; %d other violation(s), first: %s\n", m.Name, m.Prop, m.Rule, m.Construct, len(bad), first)
+		return false
+	}
+}
